@@ -464,7 +464,8 @@ def new_tex(source):
     from plasTeX.TeX import TeX
     from plasTeX import TeXDocument
     from plasTeX.Base.TeX.Primitives import MathShift
-    del MathShift.inEnv[:]      # class-level tracker: a document that ended inside math must not leak into the next (C17, D6a)
+    if hasattr(MathShift, "inEnv"):
+        del MathShift.inEnv[:]  # class-level tracker before the D6a repair (C17); per document since then
     doc = TeXDocument()
     tex = TeX(doc)
     tex.input(source)
